@@ -15,13 +15,11 @@ symbolic reasoning about the spaces in which finite elements lie.
 # Modified by Lizao Li 2015
 # Modified by Thomas Gibson 2017
 
-from functools import total_ordering
 from math import inf, isinf
 
 __all_classes__ = ["SobolevSpace", "DirectionalSobolevSpace"]
 
 
-@total_ordering
 class SobolevSpace:
     """Symbolic representation of a Sobolev space.
 
@@ -85,14 +83,32 @@ class SobolevSpace:
                 "Unable to test for inclusion of a SobolevSpace in another SobolevSpace. "
                 "Did you mean to use <= instead?"
             )
-        return other.sobolev_space == self or self in other.sobolev_space.parents
+        return other.sobolev_space <= self
+
+    # NOTE: Inclusion is only a partial order (e.g. HDiv and HCurl are
+    # not comparable), so the remaining comparisons are defined
+    # explicitly instead of being derived by functools.total_ordering,
+    # which assumes a total order.
 
     def __lt__(self, other):
         """In common with intrinsic Python sets, < indicates "is a proper subset of"."""
+        if isinstance(other, DirectionalSobolevSpace):
+            return other.__gt__(self)
         return other in self.parents
 
+    def __le__(self, other):
+        """In common with intrinsic Python sets, <= indicates "is a subset of"."""
+        return self == other or self < other
 
-@total_ordering
+    def __gt__(self, other):
+        """In common with intrinsic Python sets, > indicates "is a proper superset of"."""
+        return other.__lt__(self)
+
+    def __ge__(self, other):
+        """In common with intrinsic Python sets, >= indicates "is a superset of"."""
+        return other.__le__(self)
+
+
 class DirectionalSobolevSpace(SobolevSpace):
     """Directional Sobolev space.
 
@@ -124,21 +140,6 @@ class DirectionalSobolevSpace(SobolevSpace):
         spaces = {0: L2, 1: H1, 2: H2, 3: H3, inf: HInf}
         return spaces[self._orders[spatial_index]]
 
-    def __contains__(self, other):
-        """Check if one space is contained in another.
-
-        Implement `fe in s` where `fe` is a FiniteElement and `s` is a
-        DirectionalSobolevSpace.
-        """
-        if isinstance(other, SobolevSpace):
-            raise TypeError(
-                "Unable to test for inclusion of a SobolevSpace in another SobolevSpace. "
-                "Did you mean to use <= instead?"
-            )
-        return other.sobolev_space == self or all(
-            self[i] in other.sobolev_space.parents for i in self._spatial_indices
-        )
-
     def __eq__(self, other):
         """Check equality."""
         if isinstance(other, DirectionalSobolevSpace):
@@ -150,15 +151,25 @@ class DirectionalSobolevSpace(SobolevSpace):
         if isinstance(other, DirectionalSobolevSpace):
             if self._spatial_indices != other._spatial_indices:
                 return False
-            return any(self._orders[i] > other._orders[i] for i in self._spatial_indices)
+            # Proper subspace: at least as smooth in every direction, and not equal
+            return self._orders != other._orders and all(
+                self._orders[i] >= other._orders[i] for i in self._spatial_indices
+            )
 
-        if other in [HDiv, HCurl]:
-            return all(self._orders[i] >= 1 for i in self._spatial_indices)
-        elif other.name in ["HDivDiv", "HEin", "HCurlDiv"]:
+        if other.name in ["HDivDiv", "HEin", "HCurlDiv"]:
             # Don't know how these spaces compare
-            return NotImplementedError(f"Don't know how to compare with {other.name}")
-        else:
-            return any(self._orders[i] > other._order for i in self._spatial_indices)
+            raise NotImplementedError(f"Don't know how to compare with {other.name}")
+        # This space is contained in the isotropic space of its lowest order
+        lowest = self[self._orders.index(min(self._orders))]
+        return self != other and lowest <= other
+
+    def __gt__(self, other):
+        """In common with intrinsic Python sets, > indicates "is a proper superset of"."""
+        if isinstance(other, DirectionalSobolevSpace):
+            return other.__lt__(self)
+        # This space contains the isotropic space of its highest order
+        highest = self[self._orders.index(max(self._orders))]
+        return self != other and other <= highest
 
     def __str__(self):
         """Format as a string."""
